@@ -442,9 +442,9 @@ class MemOrchestrator(BaseOrchestrator):
         :param invocation_id: The invocation to get the lock for.
         :return: A threading Lock for the given invocation.
         """
-        if invocation_id not in self.locks:
-            self.locks[invocation_id] = threading.Lock()
-        return self.locks[invocation_id]
+        # setdefault is atomic: two threads can never end up with different locks
+        # for the same invocation (check-then-create let both enter the critical section)
+        return self.locks.setdefault(invocation_id, threading.Lock())
 
     def _atomic_status_transition(
         self,
